@@ -4,6 +4,17 @@ CONFIG = {
     "C14": {
         "level": "fault_enumeration",
         "engine": "C (shared-heap crash-point simulator)",
+        "technique": "deterministic simulation with fault injection: seeded histories over a shared heap, exception injected at every line-level crash point of each tested call, byte-wise snapshot oracle",
+        "design_ref": "DESIGN.md section 5 and section 6 (C14)",
+        "level_text": ("For each sampled (heap state, public call) every line-level crash point inside "
+                       "pulsarbat/ is injected once (Ctrl-C or MemoryError) and all caller-owned objects are "
+                       "compared byte-wise with their pre-call snapshot; histories, heaps and arguments are "
+                       "sampled by a seeded tape. Enumeration of the fault space per step, sampling above it: "
+                       "the right level because the property quantifies over 'succeeds or raises' and over "
+                       "sequences sharing inputs, which no finite test can cover and no input generator reaches."),
+        "level_note": ("Trusted: CPython sys.settrace semantics; NumPy/SciPy/Dask/astropy calls are atomic between "
+                       "crash points; the snapshot function (sim/snapshot.py). Sampled, not exhaustive, over "
+                       "histories; exhaustive over line-level crash points of each tested step up to the cap."),
         "quick_runs": 1400,
         "thorough_runs": 40000,
         "quick_wall_cap": 240,
@@ -28,4 +39,35 @@ CONFIG = {
         "real_vs_stub": {"real": ["pulsarbat (current working tree)", "numpy", "scipy.fft", "dask graph construction", "astropy"],
                          "stub": ["the trace function that raises at the chosen crash point"]},
     },
+}
+
+
+NOT_APPLICABLE = {
+    "C01": "pure function of (metadata, slice): start/stop time after crops is arithmetic on values carried along; no schedule, clock, I/O, fault or library-kept state can change it, so simulation would only be input generation (crop timestamps are still compared with the NumPy twin / time_at inside C09 and C11 runs)",
+    "C02": "channel labels are a closed-form function of (center_freq, chan_bw, nchan, align, slice); nothing for a scheduler or fault to act on",
+    "C03": "time_shift is a pure numeric map of (data, shift); the broadcast-zeroing issue the property mentions is input-shape determined, reproducible by one call, not by a schedule (its Dask branch is exercised as an operation inside C09)",
+    "C04": "freq_shift is a pure numeric map of (data, shift); no interleaving, I/O or fault dimension (Dask branch exercised inside C09)",
+    "C05": "coherent dedispersion is a pure numeric map of (data, DM, frequencies); the delayed-chirp mechanism is a C09 operation, nothing else depends on order or faults",
+    "C06": "closed-form delays and an index permutation determined by the arguments",
+    "C07": "two-double arithmetic on operands; fallback branches are selected by operand type, not by a fault or order",
+    "C08": "function of (polyco text, times); the file is consumed by sequential readline() with no retry/partial-read/recovery logic to fault, and the _intervals memo derives from columns never mutated",
+    "C10": "accept/reject and joined metadata are determined by the pieces given (adjacent reader reads are concatenated and compared inside C11)",
+    "C12": "snippet is a pure function of (signal, t, n) (it is an operation inside C09 and C14)",
+    "C13": "per-sample 2x2 algebra; no state, schedule or I/O (Dask configuration is C09)",
+    "C15": "ordering, reductions and decimal I/O of values; no state, no I/O, no schedule",
+    "C16": "validation of constructor/setter arguments is a function of those arguments; the copy-through-compute/persist/to_dask_array/rechunk clause is part of C09 and decided there",
+    "C17": "ufunc results are functions of the operands; in-place/out= forms are the sanctioned writes of the C14 model, Dask forms are C09",
+    "C18": "integer functions memoised by lru_cache under CPython's own lock; neither call history nor caller threads can change a result",
+    "C19": "real_to_complex is a pure array map (the reader path that depends on it is checked in C11 against an independent conversion)",
+    "C20": "equality with a reference DFT and STFT labelling are functions of the input; the lazy-on-Dask clause is a C09 operation",
+    "C09": "PENDING: claimed in DESIGN.md, Engine A under construction in this commit",
+    "C11": "PENDING: claimed in DESIGN.md, Engine B under construction in this commit",
+}
+
+MANIFEST_TEXT = {
+    "engines": [
+        {"name": "C", "path": "sim/heapsim.py", "serves_properties": ["C14"],
+         "kind_free_text": "shared-heap crash-point simulator: seeded call histories over caller-owned buffers, exception injection at every line event of pulsarbat frames via sys.settrace, byte-exact snapshot oracle"},
+    ],
+    "notes": "Technique family: deterministic simulation with fault injection. One integer (VERIF_SEED + run index) seeds a choice tape that decides every generated object, operation, schedule and fault; a violation is minimised by tape shrinking, written to replays/, and confirmed in a fresh interpreter before it is reported. Exit 2 + HARNESS-ERROR is never a verdict. Seventeen properties are pure functions of their arguments and are listed as not applicable (DESIGN.md section 6).",
 }
